@@ -99,10 +99,54 @@ func callErr(n int64) error {
 	return e
 }
 
+// keptRequests: the unary handler keeps some of the *connect.Request values it
+// was handed (as an audit log or an asynchronous worker would); they must stay
+// what they were after the handler returned and while other calls run.
+type keptRequest struct {
+	req  *connect.Request[pingv1.PingRequest]
+	n    int64
+	text string
+	tag  string
+}
+
+var kept struct {
+	mu   sync.Mutex
+	reqs []keptRequest
+}
+
+func keptReset() {
+	kept.mu.Lock()
+	kept.reqs = nil
+	kept.mu.Unlock()
+}
+
+func keptIntact() error {
+	kept.mu.Lock()
+	defer kept.mu.Unlock()
+	for _, k := range kept.reqs {
+		if k.req.Msg == nil || k.req.Msg.Number != k.n || k.req.Msg.Text != k.text || k.req.Header().Get("X-Call") != k.tag {
+			var n int64
+			var text string
+			if k.req.Msg != nil {
+				n, text = k.req.Msg.Number, k.req.Msg.Text
+			}
+			return fmt.Errorf("a *connect.Request that a unary handler kept (message %d/%d bytes of text, header X-Call=%q) has changed after the handler returned: now message %d/%d bytes, X-Call=%q", k.n, len(k.text), k.tag, n, len(text), k.req.Header().Get("X-Call"))
+		}
+	}
+	return nil
+}
+
 func handlers() http.Handler {
 	opts := prog.Config{HComp: []string{"deflate", "toy"}, HReadMax: 200000}.HandlerOptions()
 	mux := http.NewServeMux()
 	mux.Handle(prog.Procedure(prog.Unary), connect.NewUnaryHandler(prog.Procedure(prog.Unary), func(ctx context.Context, r *connect.Request[pingv1.PingRequest]) (*connect.Response[pingv1.PingResponse], error) {
+		if (r.Msg.Number/1000)%3 == 0 {
+			kept.mu.Lock()
+			if len(kept.reqs) < 4096 {
+				kept.reqs = append(kept.reqs, keptRequest{req: r, n: r.Msg.Number, text: r.Msg.Text, tag: r.Header().Get("X-Call")})
+			}
+			kept.mu.Unlock()
+		}
 		if wantsFail(r.Msg.Number) {
 			return nil, callErr(r.Msg.Number)
 		}
@@ -274,12 +318,24 @@ func runCall(ctx context.Context, cl *connect.Client[pingv1.PingRequest, pingv1.
 		_ = s.Close()
 	case prog.Bidi:
 		s := cl.CallBidiStream(ctx)
-		s.RequestHeader().Set("X-Call", tag)
-		// one bidirectional stream is sent on and received from concurrently
+		// one bidirectional stream is sent on and received from concurrently;
+		// for every other call the receiver is already waiting in Receive when
+		// the sender sets its request headers and starts sending
 		var wg sync.WaitGroup
 		wg.Add(1)
+		receiverFirst := c.ID%2 == 1 && c.NMsgs > 0
+		started := make(chan struct{})
+		if !receiverFirst {
+			s.RequestHeader().Set("X-Call", tag)
+			close(started)
+		}
 		go func() {
 			defer wg.Done()
+			if receiverFirst {
+				<-started
+				time.Sleep(time.Millisecond) // let the receiver reach Receive
+				s.RequestHeader().Set("X-Call", tag)
+			}
 			n := c.NMsgs
 			if n > 0 && wantsEarly(reqMsg(c, 0).N) {
 				n += earlyExtra // keep sending while the handler ends the call
@@ -291,6 +347,9 @@ func runCall(ctx context.Context, cl *connect.Client[pingv1.PingRequest, pingv1.
 			}
 			_ = s.CloseRequest()
 		}()
+		if receiverFirst {
+			close(started)
+		}
 		for {
 			m, err := s.Receive()
 			if err != nil {
@@ -408,6 +467,7 @@ func newSock(h http.Handler) (*sock, error) {
 func check(tt *testing.T, p Plan) (pbt.Info, error) {
 	var info pbt.Info
 	info.Label("transport:" + p.Transport)
+	keptReset()
 	h := handlers()
 	var hc connect.HTTPClient
 	base := prog.BaseURL
@@ -569,6 +629,9 @@ func check(tt *testing.T, p Plan) (pbt.Info, error) {
 				return info, err
 			}
 		}
+	}
+	if err := keptIntact(); err != nil {
+		return info, err
 	}
 	return info, nil
 }
